@@ -2477,7 +2477,17 @@ impl<F: ConfigField + Default> ConfigField for Option<F> {
     }
 
     fn set(&mut self, key: &str, value: &str) -> Result<()> {
-        self.get_or_insert_with(Default::default).set(key, value)
+        match self {
+            Some(inner) => inner.set(key, value),
+            None => {
+                // Only store the new value once it has been accepted, so that
+                // an invalid value leaves the option unset
+                let mut inner = F::default();
+                inner.set(key, value)?;
+                *self = Some(inner);
+                Ok(())
+            }
+        }
     }
 
     fn reset(&mut self, key: &str) -> Result<()> {
@@ -3275,12 +3285,18 @@ macro_rules! config_namespace_with_hashmap {
                 let parts: Vec<&str> = key.splitn(2, "::").collect();
                 match parts.as_slice() {
                     [inner_key, hashmap_key] => {
-                        // Get or create the struct for the specified key
-                        let inner_value = self
-                            .entry((*hashmap_key).to_owned())
-                            .or_insert_with($struct_name::default);
-
-                        inner_value.set(inner_key, value)
+                        // Get the struct for the specified key, or create one that is
+                        // only stored once the value has been accepted, so that an
+                        // invalid value leaves the options untouched
+                        match self.get_mut(*hashmap_key) {
+                            Some(inner_value) => inner_value.set(inner_key, value),
+                            None => {
+                                let mut inner_value = $struct_name::default();
+                                inner_value.set(inner_key, value)?;
+                                self.insert((*hashmap_key).to_owned(), inner_value);
+                                Ok(())
+                            }
+                        }
                     }
                     _ => _config_err!("Unrecognized key '{key}'."),
                 }
